@@ -440,3 +440,38 @@ mod tests {
         );
     }
 }
+
+/// Hook H6 (verification only): noise addition of the noise-capable types with an arbitrary random
+/// source instead of OS randomness.
+#[cfg(prio_verif)]
+pub mod verif {
+    use super::*;
+
+    /// `SumVec::add_noise`.
+    pub fn sumvec<F, S, R: Rng>(t: &SumVec<F, S>, strategy: &PureDpDiscreteLaplace, agg: &mut [F], rng: &mut R) -> Result<(), FlpError>
+    where
+        F: NttFriendlyFieldElement,
+        BigInt: From<F::Integer>,
+        F::Integer: TryFrom<BigInt, Error = TryFromBigIntError<BigInt>>,
+    {
+        t.add_noise(strategy, agg, rng)
+    }
+    /// `Histogram::add_noise`.
+    pub fn histogram<F, S, R: Rng>(t: &Histogram<F, S>, strategy: &PureDpDiscreteLaplace, agg: &mut [F], rng: &mut R) -> Result<(), FlpError>
+    where
+        F: NttFriendlyFieldElement,
+        BigInt: From<F::Integer>,
+        F::Integer: TryFrom<BigInt, Error = TryFromBigIntError<BigInt>>,
+    {
+        t.add_noise(strategy, agg, rng)
+    }
+    /// `L1BoundSum::add_noise`.
+    pub fn l1boundsum<F, S, R: Rng>(t: &L1BoundSum<F, S>, strategy: &PureDpDiscreteLaplace, agg: &mut [F], rng: &mut R) -> Result<(), FlpError>
+    where
+        F: NttFriendlyFieldElement,
+        BigInt: From<F::Integer>,
+        F::Integer: TryFrom<BigInt, Error = TryFromBigIntError<BigInt>>,
+    {
+        t.add_noise(strategy, agg, rng)
+    }
+}
